@@ -32,6 +32,8 @@ type blsFmt struct {
 	isEqual  func(a, b blsPoint) bool
 	// used returns a receiver that already holds something (see blsUsedStates)
 	used func(state int, b []byte) blsPoint
+	// double returns the compressed encoding of 2·p (p is not modified)
+	double func(p blsPoint) []byte
 }
 
 var blsUsedStates = []string{"generator", "identity", "sum(unnormalised)", "k·G", "after-rejected-decode"}
@@ -84,7 +86,7 @@ func usedBLS(t vlib.TB, f blsFmt, b []byte) {
 			if !o.accepted {
 				return
 			}
-			o.views = [][]byte{p.Bytes(), p.BytesCompressed()}
+			o.views = [][]byte{p.Bytes(), p.BytesCompressed(), f.double(p)}
 			o.flags = []bool{f.inG(p), p.IsIdentity()}
 			if freshVal != nil {
 				o.flags = append(o.flags, f.isEqual(p, freshVal), f.isEqual(freshVal, p))
@@ -135,6 +137,11 @@ var blsFmts = []blsFmt{
 		},
 		isEqual: func(a, b blsPoint) bool { return a.(*bls.G1).IsEqual(b.(*bls.G1)) },
 		used:    usedG1,
+		double: func(p blsPoint) []byte {
+			q := *p.(*bls.G1)
+			q.Double()
+			return q.BytesCompressed()
+		},
 	},
 	{
 		g: 2, name: "bls12381.G2",
@@ -151,6 +158,11 @@ var blsFmts = []blsFmt{
 		},
 		isEqual: func(a, b blsPoint) bool { return a.(*bls.G2).IsEqual(b.(*bls.G2)) },
 		used:    usedG2,
+		double: func(p blsPoint) []byte {
+			q := *p.(*bls.G2)
+			q.Double()
+			return q.BytesCompressed()
+		},
 	},
 }
 
